@@ -487,8 +487,55 @@ def standin_conversions(tier, seed):
             bad("kraus() recovered from _apply_channel_ describes a different map", channel=inner)
         if len({f["failed"] for f in fails}) >= 3:
             break
+    # moments and circuits as channels (qubits and qudits): the Kraus operators of a moment are the tensor products of its operations'
+    # operators in sorted-qubit order, a circuit's superoperator is the product of its moments' superoperators
+    t0, b0, b1 = cirq.LineQid(0, dimension=3), cirq.LineQubit(1), cirq.LineQubit(2)
+    shift3 = cirq.MatrixGate(np.roll(np.eye(3), 1, axis=0), qid_shape=(3,))
+    pools = {"qubits": ([b0, b1], [cirq.bit_flip(0.25)(b0), cirq.amplitude_damp(0.3)(b1), cirq.H(b0), cirq.CNOT(b1, b0), cirq.phase_damp(0.4)(b1), cirq.depolarize(0.2)(b0)]),
+             "qutrit and qubit": ([t0, b0], [shift3(t0), cirq.ZPowGate(dimension=3)(t0) ** 0.5, cirq.bit_flip(0.25)(b0), cirq.H(b0), cirq.X(b0).controlled_by(t0, control_values=[2]), cirq.amplitude_damp(0.3)(b0)])}
+    for pname, (regs, pool) in pools.items():
+        dims = [x.dimension for x in regs]
+        Dm = int(np.prod(dims))
+        for _ in range(4 if tier == "quick" else 30):
+            moments = []
+            for _m in range(rng.randrange(1, 4)):
+                chosen, used = [], set()
+                for o in rng.sample(pool, len(pool)):
+                    if used.isdisjoint(o.qubits) and rng.random() < 0.7:
+                        chosen.append(o)
+                        used |= set(o.qubits)
+                if chosen:
+                    moments.append(cirq.Moment(chosen))
+            if not moments:
+                continue
+            circ = cirq.Circuit(moments)
+            cases += 1
+            S_ref = np.eye(Dm * Dm, dtype=complex)
+            ok = True
+            for m in moments:
+                full = [np.eye(1)]
+                # reference Kraus set of the moment on the whole register: embed every operation's operators
+                ks_m = [np.eye(Dm, dtype=complex)]
+                for o in m.operations:
+                    ks_m = [refsim.embed(np.asarray(k), list(o.qubits), regs) @ prev for prev in ks_m for k in cirq.kraus(o)]
+                S_m = sum(np.kron(k, k.conj()) for k in ks_m)
+                S_ref = S_m @ S_ref
+                try:
+                    got_m = cirq.kraus(m.expand_to(regs))
+                    if not np.allclose(sum(np.kron(k, k.conj()) for k in got_m), S_m, atol=1e-7):
+                        bad("cirq.kraus(moment) does not describe the tensor product of the operations' channels", moment=m, register=pname)
+                        ok = False
+                except Exception as ex:
+                    bad(f"cirq.kraus(moment) raised {type(ex).__name__} although has_kraus(moment) is {cirq.has_kraus(m)}", moment=m, register=pname)
+                    ok = False
+            if ok and set(circ.all_qubits()) == set(regs):
+                try:
+                    if not np.allclose(circ._superoperator_(), S_ref, atol=1e-7):
+                        bad("the circuit's superoperator is not the product of its moments' channels", circuit=circ, register=pname)
+                except Exception as ex:
+                    bad(f"Circuit._superoperator_ raised {type(ex).__name__} although _has_superoperator_ is {circ._has_superoperator_()}", circuit=circ, register=pname)
     return dict(function="cirq-core/cirq/qis/channels.py + protocols/kraus_protocol.py + protocols/mixture_protocol.py", case="conversions",
-                bound=f"{n} seeded channels from 17 makers (incl. numeric Kraus / mixed-unitary / random-gate / two-qubit) with random density matrices",
+                bound=f"{n} seeded channels from 17 makers (incl. numeric Kraus / mixed-unitary / random-gate / two-qubit) with random density matrices; moments and circuits as channels on two qubits and on a qutrit + qubit",
                 cases=cases, distinct=cases, failures=len(fails), exhaustive=False, _fails=_uniq(fails))
 standin_conversions.prop = "C09"
 
